@@ -951,12 +951,12 @@ def coq_term(case, obs):
     if "err" in main:
         if main["err"] not in ERR_CODE:
             return None
-        terms.append("lines_eqb (vcf_body %s) (Err %d)" % (inp, ERR_CODE[main["err"]]))
+        terms.append("lines_eqb (vcf_body_current %s) (Err %d)" % (inp, ERR_CODE[main["err"]]))
     else:
         lines = main["text"].split("\n")
         k = next(i for i, ln in enumerate(lines) if ln.startswith("#CHROM"))
         body = [ln + "\n" for ln in lines[k + 1:-1]]
-        terms.append("lines_eqb (vcf_body %s) (Ok [%s])" % (inp, "; ".join(cbytes(b) for b in body)))
+        terms.append("lines_eqb (vcf_body_current %s) (Ok [%s])" % (inp, "; ".join(cbytes(b) for b in body)))
         names = args.get("individual_names")
         nm = "None" if names is None else "(Some [%s])" % "; ".join(cbytes(x) for x in names)
         terms.append("res_eqb zlist_eqb (do ns <- header_names %s %d%%nat; Ok (chrom_line ns)) (Ok %s)"
